@@ -354,16 +354,31 @@ fn codepoints_from_class(ct: CharacterClassType, positive: bool) -> CodePointSet
 
 /// \return a Bracket for a given character escape (positive or negative).
 /// For icase mode, we expand the positive set first, then invert if needed.
-fn make_bracket_class(ct: CharacterClassType, positive: bool, icase: bool) -> ir::Node {
+fn make_bracket_class(
+    ct: CharacterClassType,
+    positive: bool,
+    icase: bool,
+    unicode: bool,
+) -> ir::Node {
     // Get the positive (non-inverted) set, perform any icase expansion, then maybe invert.
     let mut cps = codepoints_from_class_positive(ct);
     if icase {
-        cps = unicode::add_icase_code_points(cps);
+        cps = add_icase(cps, unicode);
     }
     if !positive {
         cps = cps.inverted();
     }
     ir::Node::Bracket(BracketContents { invert: false, cps })
+}
+
+/// Close a set of code points under case-insensitive equivalence: simple case folding
+/// in Unicode mode, the upper-casing relation otherwise.
+fn add_icase(cps: CodePointSet, unicode: bool) -> CodePointSet {
+    if unicode {
+        unicode::add_icase_code_points(cps)
+    } else {
+        unicode::add_icase_code_points_legacy(cps)
+    }
 }
 
 fn add_class_atom(bc: &mut BracketContents, atom: ClassAtom) {
@@ -883,7 +898,7 @@ where
                 Some(']') => {
                     self.consume(']');
                     if self.flags.icase {
-                        result.cps = unicode::add_icase_code_points(result.cps);
+                        result.cps = add_icase(result.cps, self.flags.unicode);
                     }
                     return Ok(ir::Node::Bracket(result));
                 }
@@ -1635,6 +1650,7 @@ where
                     CharacterClassType::Digits,
                     c == 'd' as u32,
                     self.flags.icase,
+                    self.flags.unicode,
                 ))
             }
 
@@ -1644,6 +1660,7 @@ where
                     CharacterClassType::Spaces,
                     c == 's' as u32,
                     self.flags.icase,
+                    self.flags.unicode,
                 ))
             }
 
@@ -1653,6 +1670,7 @@ where
                     CharacterClassType::Words,
                     c == 'w' as u32,
                     self.flags.icase,
+                    self.flags.unicode,
                 ))
             }
 
